@@ -119,7 +119,10 @@ func (h *Handler) HandleIQ(iq stanza.IQ, t xmlstream.TokenReadEncoder, start *xm
 	case "close":
 		_, sid := attr.Get(start.Attr, "sid")
 
+		// The table is written by Close and OpenIQ on other goroutines.
+		h.mu.Lock()
 		conn, ok := h.streams[sid]
+		h.mu.Unlock()
 		if !ok {
 			_, err := xmlstream.Copy(t, iq.Error(stanza.Error{
 				Type:      stanza.Cancel,
